@@ -498,12 +498,14 @@ def run(src, tier, seed):
             continue
         af, pf = af[0], pf[0]
         locs = {d['n'] for d in fwalk(pf) if d.get('k') == 'decl' and 'PtAsgn' in (d.get('ct') or d.get('t') or '')}
-        if not locs:
+        # the solver's own literal stack: a vec<PtAsgn> member that popBacktrackPoint pops inside a loop
+        rec = fx.R.get(cls) or {}
+        lit_stacks = {f_['n'] for f_ in rec.get('fields', []) if 'PtAsgn' in (f_.get('ct') or f_.get('t') or '') and 'vec' in (f_.get('ct') or f_.get('t') or '')}
+        stack = {(recv_path(x) or '').split('.')[-1] for l_ in walk(pf['body']) if l_.get('k') == 'loop' for x in walk(l_['body'])
+                 if x.get('k') == 'call' and mname(x) in ('pop', 'pop_back') and (recv_path(x) or '').split('.')[-1] in lit_stacks}
+        if not stack:
             continue        # this solver does not retract literal by literal (undo log / bound store): covered by the pairing and undo-kind rules
         n_cls += 1
-        stack = {(path_of(see_through(d['init']).get('recv')) or '').split('.')[-1] for d in fwalk(pf) if d.get('k') == 'decl' and d['n'] in locs
-                 and isinstance(see_through(d.get('init')), dict) and see_through(d['init']).get('k') == 'call'}
-        stack.discard('')
         rd_a = uc.polarity_reader({af['params'][0]['n']})
         rd_p = uc.polarity_reader(locs)
         for P, pname in (('pos', 'positive'), ('neg', 'negative')):
